@@ -18,7 +18,7 @@ SPEC = {
     ],
 }
 
-VALUE_SETS = [lambda i: 11.0 + 3 * i, lambda i: 7.5 + 2.0 * i, lambda i: -20.0 + 5 * i]
+VALUE_SETS = [lambda i: 11.0 + 3 * i, lambda i: 0.0, lambda i: 7.5 + 2.0 * i, lambda i: -20.0 + 5 * i, lambda i: (0.0 if i % 2 else 90.0)]
 
 
 def build(tr, valf, rng=None, history=False):
@@ -95,6 +95,13 @@ def run_impl(ctx, nsets, history):
                 res[(tr, si)] = (True, None, "EXC", repr(e))
                 continue
             kind, detail = classify_get_position(HklCalculation(ub, c), (0.7, 0.4, 1.1), 1.0)
+            if im is False and kind == "NOTIMPL":
+                # an unimplemented mode says so whatever is asked of it: zero vector, unreachable reflection, reflection along the reference vector
+                for h in ((0.0, 0.0, 0.0), (9.0, 9.0, 9.0), (1.0, 0.2, 0.1), (0.1, 0.2, 1.0)):
+                    k2, d2 = classify_get_position(HklCalculation(ub, c), h, 1.0)
+                    if k2 != "NOTIMPL":
+                        kind, detail = k2, f"asked for hkl={h}: {d2 if k2 != 'ok' else 'returned positions'}"
+                        break
             res[(tr, si)] = (True, im, kind, detail if kind != "ok" else len(detail))
     return res
 
@@ -122,7 +129,7 @@ def correspondence(ctx):
 
 
 def oracle(ctx, widen=1):
-    nsets = ctx.scale(1, 3) * (1 if widen == 1 else 2)
+    nsets = ctx.scale(2, 5) * (1 if widen == 1 else 2)
     for history in (False, True, 2):
         impl = run_impl(ctx, nsets, history)
         nacc = 0
@@ -152,7 +159,7 @@ def replay(ctx, data):
     vlib.import_repo()
     from diffcalc.hkl.calc import HklCalculation
     r = data["replay"]
-    c = build(tuple(r["triple"]), VALUE_SETS[r["value_set"] % 3], ctx.rng, False)
+    c = build(tuple(r["triple"]), VALUE_SETS[r["value_set"] % len(VALUE_SETS)], ctx.rng, False)
     print("triple", r["triple"], "implemented", c.is_current_mode_implemented(),
           "outcome", classify_get_position(HklCalculation(mk_ub(), c), (0.7, 0.4, 1.1), 1.0)[0])
     return 0
